@@ -14,29 +14,31 @@ def NiceRec (r : Bytes) : Prop :=
 theorem fileNameOf_rec (e : Entry) : fileNameOf e = fileNameOf ⟨1, e.rec16, []⟩ := rfl
 
 theorem readEntries_nice (sd : Side) (bat : List Nat) (dir : Str) : ∀ (entries : List Entry) (st : RdState),
-    (∀ e ∈ entries, NiceRec e.rec16) →
-    ∃ st', readEntries sd bat (some dir) entries st = (st', none) ∧ st'.mkdirs = st.mkdirs
+    (∀ e ∈ entries, NiceRec e.rec16) → (∀ e ∈ entries, Tape.collides st.keep (pathJoin dir (fileNameOf e)) = false) →
+    ∃ st', readEntries sd bat (some dir) entries st = (st', none) ∧ st'.mkdirs = st.mkdirs ∧ st'.keep = st.keep
       ∧ st'.writes = st.writes ++ entries.map (fun e => (pathJoin dir (fileNameOf e), readFile sd bat e)) := by
   intro entries
   induction entries with
-  | nil => intro st _; exact ⟨st, rfl, rfl, by simp⟩
+  | nil => intro st _ _; exact ⟨st, rfl, rfl, rfl, by simp⟩
   | cons e rest ih =>
-    intro st hn
+    intro st hn hsafe
     obtain ⟨h128, h47, h0, hdot, hdd⟩ := hn e (by simp)
+    have hs0 := hsafe e (by simp)
     simp only [readEntries]
     rw [if_neg (by rw [h128]; decide)]
-    rw [fileNameOf_rec e, if_neg (by rw [h47, h0]; decide), if_neg (by simp [hdot, hdd])]
-    have hmono : ∀ S : RdState, S.mkdirs = st.mkdirs →
+    rw [fileNameOf_rec e] at hs0 ⊢
+    rw [if_neg (by rw [h47, h0]; decide), if_neg (by rw [hs0]; decide), if_neg (by simp [hdot, hdd])]
+    have hmono : ∀ S : RdState, S.mkdirs = st.mkdirs → S.keep = st.keep →
         S.writes = st.writes ++ [(pathJoin dir (fileNameOf e), readFile sd bat e)] →
-        (∃ st', readEntries sd bat (some dir) rest S = (st', none) ∧ st'.mkdirs = S.mkdirs
+        (∃ st', readEntries sd bat (some dir) rest S = (st', none) ∧ st'.mkdirs = S.mkdirs ∧ st'.keep = S.keep
           ∧ st'.writes = S.writes ++ rest.map (fun e => (pathJoin dir (fileNameOf e), readFile sd bat e))) →
-        ∃ st', readEntries sd bat (some dir) rest S = (st', none) ∧ st'.mkdirs = st.mkdirs
+        ∃ st', readEntries sd bat (some dir) rest S = (st', none) ∧ st'.mkdirs = st.mkdirs ∧ st'.keep = st.keep
           ∧ st'.writes = st.writes ++ (e :: rest).map (fun e => (pathJoin dir (fileNameOf e), readFile sd bat e)) := by
-      intro S hm hw ⟨st', h1, h2, h3⟩
-      refine ⟨st', h1, by rw [h2, hm], ?_⟩
+      intro S hm hk hw ⟨st', h1, h2, h2', h3⟩
+      refine ⟨st', h1, by rw [h2, hm], by rw [h2', hk], ?_⟩
       rw [h3, hw]
       simp
-    exact hmono _ rfl (by rw [readFileImpl_eq]; rfl) (ih _ (fun e' he' => hn e' (by simp [he'])))
+    exact hmono _ rfl rfl (by rw [readFileImpl_eq]; rfl) (ih _ (fun e' he' => hn e' (by simp [he'])) (fun e' he' => hsafe e' (by simp [he'])))
 
 /-- every file of the side has an ordinary name -/
 def NiceSide (sd : Side) : Prop := ∀ j f, j < 112 → fileAt sd j = some f → NiceRec f.1
@@ -75,42 +77,57 @@ theorem nice_entries {sd : Side} {bat : List Nat} {own : Nat → List Nat} (inv 
   exact hn j _ hj' this
 
 theorem readSides_nice (target : Str) : ∀ (sides : List Side) (i : Nat) (st : RdState),
-    (∀ sd ∈ sides, SideOk sd ∧ NiceSide sd) →
+    (∀ sd ∈ sides, SideOk sd ∧ NiceSide sd) → (∀ p ∈ sidesFiles target sides i, Tape.collides st.keep p.1 = false) →
     ∃ st', readSides (some target) sides i st = (st', none) ∧ st'.writes = st.writes ++ sidesFiles target sides i := by
   intro sides
   induction sides with
-  | nil => intro i st _; exact ⟨st, rfl, by simp [sidesFiles]⟩
+  | nil => intro i st _ _; exact ⟨st, rfl, by simp [sidesFiles]⟩
   | cons sd rest ih =>
-    intro i st h
+    intro i st h hsafe
     obtain ⟨⟨bat, own, inv⟩, hn⟩ := h sd (by simp)
     simp only [readSides, Option.map_some]
     rw [inv.hbat]
     dsimp only
     rw [listFiles_inv inv]
     dsimp only
-    have hmono : ∀ S : RdState, S.writes = st.writes →
+    have hsafe1 : ∀ e ∈ (List.range 112).filterMap (entryAt sd own),
+        Tape.collides st.keep (pathJoin (pathJoin target (str "side" ++ digits i)) (fileNameOf e)) = false := by
+      intro e he
+      apply hsafe (pathJoin (pathJoin target (str "side" ++ digits i)) (fileNameOf e), readFile sd bat e)
+      simp only [sidesFiles, List.mem_append]
+      left
+      rw [← entries_map_eq_sideFiles inv]
+      exact List.mem_map_of_mem he
+    have hmono : ∀ S : RdState, S.writes = st.writes → S.keep = st.keep →
         (∃ S', readEntries sd bat (some (pathJoin target (str "side" ++ digits i))) ((List.range 112).filterMap (entryAt sd own)) S = (S', none)
-          ∧ S'.mkdirs = S.mkdirs ∧ S'.writes = S.writes ++ ((List.range 112).filterMap (entryAt sd own)).map
+          ∧ S'.mkdirs = S.mkdirs ∧ S'.keep = S.keep ∧ S'.writes = S.writes ++ ((List.range 112).filterMap (entryAt sd own)).map
               (fun e => (pathJoin (pathJoin target (str "side" ++ digits i)) (fileNameOf e), readFile sd bat e))) →
         ∃ st', (match readEntries sd bat (some (pathJoin target (str "side" ++ digits i))) ((List.range 112).filterMap (entryAt sd own)) S with
             | (st', some e) => (st', some e)
             | (st', none) => readSides (some target) rest (i + 1) { st' with l := onEndOfSide st'.l (computeUsage bat) }) = (st', none)
           ∧ st'.writes = st.writes ++ sidesFiles target (sd :: rest) i := by
-      intro S hS ⟨S', h1, _, h3⟩
+      intro S hS hK ⟨S', h1, _, hk', h3⟩
       rw [h1]
       dsimp only
       obtain ⟨st2, g1, g2⟩ := ih (i + 1) { S' with l := onEndOfSide S'.l (computeUsage bat) } (fun s hs => h s (by simp [hs]))
+        (by intro p hp
+            show Tape.collides S'.keep p.1 = false
+            rw [hk', hK]
+            apply hsafe p
+            simp only [sidesFiles, List.mem_append]
+            exact Or.inr hp)
       refine ⟨st2, g1, ?_⟩
       rw [g2]
       dsimp only
       rw [h3, hS, entries_map_eq_sideFiles inv]
       simp [sidesFiles]
-    exact hmono _ rfl (readEntries_nice sd bat _ _ _ (nice_entries inv hn))
+    exact hmono _ rfl rfl (readEntries_nice sd bat _ _ _ (nice_entries inv hn) hsafe1)
 
-theorem finish_nice (target : Str) (sides : List Side) (S : RdState) (hall : ∀ sd ∈ sides, SideOk sd ∧ NiceSide sd) :
+theorem finish_nice (target : Str) (sides : List Side) (S : RdState) (hall : ∀ sd ∈ sides, SideOk sd ∧ NiceSide sd)
+    (hsafe : ∀ p ∈ sidesFiles target sides 0, Tape.collides S.keep p.1 = false) :
     (finishRead (readSides (some target) sides 0 S)).status = .ret 0
     ∧ (finishRead (readSides (some target) sides 0 S)).writes = S.writes ++ sidesFiles target sides 0 := by
-  obtain ⟨st', h1, h2⟩ := readSides_nice target sides 0 S hall
+  obtain ⟨st', h1, h2⟩ := readSides_nice target sides 0 S hall hsafe
   rw [h1]
   exact ⟨rfl, by simp only [finishRead]; exact h2⟩
 
@@ -118,7 +135,8 @@ theorem finish_nice (target : Str) (sides : List Side) (S : RdState) (hall : ∀
     side after side and in catalog order, `target/sideN/NAME.EXT` with the content of every file
     of the image — nothing else. -/
 theorem extract_consistent (fl : Flavour) (verbose : Bool) (archive : Str) (into : Option Str) (img : Image)
-    (h : ImgOk img) (hn : ∀ k, k < 4 → NiceSide (img.getD k [])) :
+    (h : ImgOk img) (hn : ∀ k, k < 4 → NiceSide (img.getD k []))
+    (hk : ∀ p ∈ sidesFiles (Tape.targetDirOf archive into) img 0, samePath p.1 archive = false) :
     (extract fl verbose archive into (save fl img)).status = .ret 0
     ∧ (extract fl verbose archive into (save fl img)).writes = sidesFiles (Tape.targetDirOf archive into) img 0 := by
   unfold extract
@@ -130,8 +148,8 @@ theorem extract_consistent (fl : Flavour) (verbose : Bool) (archive : Str) (into
     have hi4 : i < 4 := by rw [← h.1]; exact hi
     have e : img.getD i [] = img[i] := by rw [List.getD_eq_getElem?_getD, List.getElem?_eq_getElem hi]; rfl
     exact ⟨e ▸ h.2 i hi4, e ▸ hn i hi4⟩
-  refine ⟨(finish_nice _ img _ hall).1, ?_⟩
-  rw [(finish_nice _ img _ hall).2]
+  refine ⟨(finish_nice _ img _ hall hk).1, ?_⟩
+  rw [(finish_nice _ img _ hall hk).2]
   rfl
 
 /-! ### ordinary names -/
